@@ -109,6 +109,17 @@ func (s *c12SigScope) signal(kind string, n int, f func()) {
 	}
 }
 
+// c12SlowCtx is a context whose signalling calls return late: the error is recorded and the done
+// signal has fired, the caller of AppendError/Kill/Stop is still inside.
+type c12SlowCtx struct {
+	app.ContextScope
+	d time.Duration
+}
+
+func (c *c12SlowCtx) AppendError(errs ...error) { c.ContextScope.AppendError(errs...); time.Sleep(c.d) }
+func (c *c12SlowCtx) Kill()                     { c.ContextScope.Kill(); time.Sleep(c.d) }
+func (c *c12SlowCtx) Stop()                     { c.ContextScope.Stop(); time.Sleep(c.d) }
+
 func (s *c12SigScope) AppendError(errs ...error) {
 	n := 0
 	for _, e := range errs {
@@ -171,7 +182,7 @@ type c12LoopRound struct {
 	Cut      int    `json:"input_ends_at_byte"`
 	Fault    string `json:"fault"` // read_error | end_of_input
 	SlowRead bool   `json:"slow_read,omitempty"`
-	Mode     int    `json:"signal_held_back"` // 0 no, 1 yields before, 2 sleep before, 3 sleep after
+	Mode     int    `json:"signal_held_back"` // 0 no, 1 yields before, 2 sleep before, 3 sleep after, 4 the context's own signalling calls return late
 	Yields   int    `json:"yields,omitempty"`
 	DelayUS  int    `json:"delay_us,omitempty"`
 	Isolated bool   `json:"isolated_caller"`
@@ -219,10 +230,19 @@ func c12LoopFailureProbe(o *Out, rng *RNG, thorough bool) {
 				in.slow = 300 * time.Microsecond
 			}
 		}
-		top := scope.New(scope.Params{})
+		// mode 4: the scope's context records the error / fires the done signal and returns late, i.e.
+		// the signalling call is descheduled INSIDE the scope right after the signal; whoever the
+		// signal releases (the caller: Wait, then Close) runs while that call is still in flight
+		slow := func(c app.ContextScope) app.ContextScope {
+			if rd.Mode == 4 {
+				return &c12SlowCtx{ContextScope: c, d: time.Duration(rd.DelayUS) * time.Microsecond}
+			}
+			return c
+		}
+		top := scope.New(scope.Params{ContextScope: slow(contextscope.New())})
 		real := top
 		if rd.Isolated {
-			real = scope.NewChild(top, scope.ChildParams{ContextScope: contextscope.NewIsolated(top), DataScope: top.BaseDataScope()})
+			real = scope.NewChild(top, scope.ChildParams{ContextScope: slow(contextscope.NewIsolated(top)), DataScope: top.BaseDataScope()})
 		}
 		scp := &c12SigScope{Scope: real, mode: rd.Mode, yields: rd.Yields, d: time.Duration(rd.DelayUS) * time.Microsecond}
 		cio := gio.NewIO(gio.IOParams{In: gio.NewInput(in), Out: gio.NewNilOutput(), Err: gio.NewNilOutput(), CWD: scopeIO().CWD()})
@@ -283,13 +303,9 @@ func c12LoopFailureProbe(o *Out, rng *RNG, thorough bool) {
 			fail("no_panic", fmt.Sprintf("Wait() on the calling scope panicked: %.120v", wpan))
 		}
 		// A signalling call that is INSIDE the scope at this moment (its error recorded, the done signal
-		// fired, the error listeners not yet run) is allowed to return before the scope is closed: closing
-		// under it is a schedule of its own (a nil dereference in scope.appendError on the unchanged
-		// library, recorded as a finding of the fifth round) and is not what this family judges.  Calls
-		// that are still held back are NOT waited for: they are the late ones.
-		for dl := time.Now().Add(5 * time.Second); atomic.LoadInt32(&scp.inside) != 0 && time.Now().Before(dl); {
-			runtime.Gosched()
-		}
+		// fired, the error listeners not yet run) is NOT waited for: the done signal is what releases
+		// the caller, and closing the scope under such a call must not make it panic (it did: a nil
+		// dereference in scope.appendError, repaired by 451be9e; mode 4 forces this schedule).
 		closeErr, cpan, ok := callGuard(real.Close, 5*time.Second)
 		if !ok {
 			fail("no_hang", "the loop returned, yet Close() of the calling scope blocks")
@@ -412,6 +428,10 @@ func c12LoopFailureProbe(o *Out, rng *RNG, thorough bool) {
 					rd.DelayUS = 20000
 				}
 				run(rd)
+				if cut%3 == si%3 || thorough {
+					rd.Mode, rd.DelayUS, rd.L1 = 4, 2000, false
+					run(rd)
+				}
 			}
 		}
 	}
@@ -431,6 +451,10 @@ func c12LoopFailureProbe(o *Out, rng *RNG, thorough bool) {
 			rd.Mode, rd.Yields = 1, 1+rng.Intn(40)
 		case 2:
 			rd.Mode, rd.DelayUS = 3, 200+rng.Intn(600)
+		case 3:
+			if rng.Chance(30) {
+				rd.Mode, rd.DelayUS = 4, 200+rng.Intn(1500)
+			}
 		}
 		run(rd)
 	}
